@@ -965,7 +965,7 @@ func poolLockedAt(l *Loaded, pf *poolFacts, fn *ssa.Function, base ssa.Value, at
 			idx = k
 		}
 	}
-	cs := l.StaticCallers(fn)
+	cs := l.RealCallers(fn)
 	if idx < 0 || len(cs) == 0 {
 		return false
 	}
